@@ -91,9 +91,18 @@ def oracle(toks, line):
         m = re.match(r"ok in0:32768 copied=1 (\S+)$", line)
         return bool(m) and runs(m.group(1)) == want
     if op == "grantg":
-        # whatever a granting backend answers, the tainted result designates sandbox memory holding the source bytes
+        # whatever a granting backend answers, the tainted result designates sandbox memory holding the source bytes;
+        # a null source or a source range that crosses a boundary never reaches the backend
+        kind, off = parse_addr(toks[3]); nbytes = int(toks[4]) * APPSZ[toks[2]]
+        if kind == "null" or not inside(kind, off, nbytes):
+            return line == "abort"
         return line == f"ok inside copied={0 if toks[1] == '1' else 1} bytes=same"
     if op == "denyg":
+        return line == f"ok app copied={0 if toks[1] == '1' else 1} bytes=same"
+    if op == "denygo":
+        off, nbytes = int(toks[3]), int(toks[4]) * APPSZ[toks[2]]
+        if off == 0 or off + nbytes > BLK:
+            return line == "abort"      # (offset 0 is the sandbox's null)
         return line == f"ok app copied={0 if toks[1] == '1' else 1} bytes=same"
     if op == "grantf":
         # the allocator inside the sandbox returns anything: the copy proceeds only into a buffer wholly inside the sandbox
@@ -176,6 +185,9 @@ def gen_ops(chk, thorough):
             for c in (1, 2, 16, 100):
                 ops.append(f"grantg {mode} {el} app:64 {c}")
                 ops.append(f"denyg {mode} {el} {c}")
+            sz = APPSZ[el]
+            ops += [f"grantg {mode} {el} null 4", f"grantg {mode} {el} app:{BLK - 8} {32 // sz}", f"grantg {mode} {el} app:{BLK - 16} {16 // sz}",
+                    f"denygo {mode} {el} {BLK - 8} {32 // sz}", f"denygo {mode} {el} {BLK - 32} {32 // sz}", f"denygo {mode} {el} 4096 8", f"denygo {mode} {el} {BLK - 8} {16 // sz}"]
     for el in ("char", "short", "double"):
         sz = APPSZ[el]
         for s in ["app:64", "in0:64", "null"]:
